@@ -1314,6 +1314,54 @@ mod c08_shift {
     fn c08_rsh_gap__b4_s2_k13() {
         rsh_gap_case(13);
     }
+    // truncating shapes (seed C08-3): a has 2 limbs, the result 1 -- the limbs of a below the result's precision contribute their carry only
+    fn check_r(res: &VecZnx<Vec<u8>>, rs: usize, va: i128, off: i64, op: u8) {
+        let mut j = 0;
+        let mut vr: i128 = 0;
+        while j < rs {
+            let d = res.at(0, j)[0];
+            assert!(d >= -(1 << (B - 1)) && d < (1 << (B - 1)), "C08:shift output digit balanced (truncating shape)");
+            vr = (vr << B) + d as i128;
+            j += 1;
+        }
+        let neg: u32 = if off < 0 { (-off) as u32 } else { 0 };
+        let pos: u32 = if off > 0 { off as u32 } else { 0 };
+        let m: i128 = 1i128 << ((B * S) as u32 + neg);
+        let unit: i128 = 1i128 << ((B * (S - rs)) as u32 + neg);
+        let e = ((vr << ((B * (S - rs)) as u32 + neg)) - (va << pos)).rem_euclid(m);
+        let good = e <= unit || e >= m - unit;
+        assert!(op != 0 || good, "C08:vec_znx_lsh into a shorter result == a * 2^k on the torus within one unit of the result's last limb");
+        assert!(op != 1 || good, "C08:vec_znx_rsh into a shorter result == a * 2^-k on the torus within one unit of the result's last limb");
+    }
+    fn trunc_case(k: usize) {
+        let (a, va) = input();
+        let mut carry = [0i64; 4];
+        let mut r: VecZnx<Vec<u8>> = VecZnx::alloc(1, 1, 1);
+        r.at_mut(0, 0)[0] = kani::any();
+        vec_znx_lsh::<_, _, ZnxRef, true>(B, k, &mut r, 0, &a, 0, &mut carry);
+        check_r(&r, 1, va, k as i64, 0);
+        if k.div_ceil(B) <= 1 {
+            // (more limbs of shift than the result has: known finding DESIGN §6-10, harnesses c08_rsh_gap__*)
+            let mut r2: VecZnx<Vec<u8>> = VecZnx::alloc(1, 1, 1);
+            r2.at_mut(0, 0)[0] = kani::any();
+            vec_znx_rsh::<_, _, ZnxRef, true>(B, k, &mut r2, 0, &a, 0, &mut carry);
+            check_r(&r2, 1, va, -(k as i64), 1);
+        }
+    }
+    macro_rules! trunc_harness {
+        ($name:ident, $k:expr) => {
+            #[kani::proof]
+            #[kani::unwind(8)]
+            #[kani::stub(alloc::fmt::format, fmt_stub)]
+            fn $name() {
+                trunc_case($k);
+            }
+        };
+    }
+    trunc_harness!(c08_shift_trunc__b4_a2_r1_k0, 0);
+    trunc_harness!(c08_shift_trunc__b4_a2_r1_k3, 3);
+    trunc_harness!(c08_shift_trunc__b4_a2_r1_k4, 4);
+    trunc_harness!(c08_shift_trunc__b4_a2_r1_k6, 6);
     macro_rules! shift_harness {
         ($name:ident, $k:expr) => {
             #[kani::proof]
@@ -1335,6 +1383,67 @@ mod c08_shift {
 }
 
 // ------------------------------------------------------------------------------------------------
+// C09 — ring merging against the index-level model (bounded in shape, symbolic limb values, stale result contents):
+// coefficient k of part i is coefficient gap*k + i of the merged polynomial, limbs a part does not have read as zero, the other
+// column of the result is untouched.  Complements the unbounded Verus unit vec_znx_merge, whose loop anchors are
+// lost (undecided) when the loop structure is edited (seed C09-3).
+// ------------------------------------------------------------------------------------------------
+mod c09_rings {
+    use super::fmt_stub;
+    use crate::reference::vec_znx::vec_znx_merge_rings;
+    use crate::reference::znx::ZnxRef;
+    use poulpy_hal::layouts::{VecZnx, ZnxView, ZnxViewMut};
+
+    fn part(n: usize, size: usize) -> VecZnx<Vec<u8>> {
+        let mut a: VecZnx<Vec<u8>> = VecZnx::alloc(n, 2, size);
+        for x in a.raw_mut().iter_mut() {
+            *x = kani::any();
+        }
+        a
+    }
+    fn merge_case<const G: usize>(n_in: usize, sizes: [usize; G], res_size: usize) {
+        let n_out = n_in * G;
+        let parts: [VecZnx<Vec<u8>>; G] = core::array::from_fn(|i| part(n_in, sizes[i]));
+        let mut res = part(n_out, res_size);
+        let before = res.clone();
+        let mut tmp = [0i64; 8];
+        vec_znx_merge_rings::<_, _, ZnxRef>(&mut res, 1, &parts, 0, &mut tmp[..n_out]);
+        let mut j = 0;
+        while j < res_size {
+            let mut i = 0;
+            while i < G {
+                let mut k = 0;
+                while k < n_in {
+                    let want = if j < sizes[i] { parts[i].at(0, j)[k] } else { 0 };
+                    assert!(res.at(1, j)[G * k + i] == want, "C09:merge_rings: coefficient gap*k+i of limb j is coefficient k of part i (zero past the part's limbs)");
+                    k += 1;
+                }
+                i += 1;
+            }
+            let mut t = 0;
+            while t < n_out {
+                assert!(res.at(0, j)[t] == before.at(0, j)[t], "C09:merge_rings leaves the other column untouched");
+                t += 1;
+            }
+            j += 1;
+        }
+    }
+    macro_rules! rings_harness {
+        ($name:ident, $body:expr) => {
+            #[kani::proof]
+            #[kani::unwind(18)]
+            #[kani::stub(alloc::fmt::format, fmt_stub)]
+            fn $name() {
+                $body;
+            }
+        };
+    }
+    rings_harness!(c09_merge_rings__g2_n1_s21_r2, merge_case::<2>(1, [2, 1], 2));
+    rings_harness!(c09_merge_rings__g2_n1_s12_r3, merge_case::<2>(1, [1, 2], 3));
+    rings_harness!(c09_merge_rings__g2_n2_s21_r2, merge_case::<2>(2, [2, 1], 2));
+    // (split_ring in the same shapes exceeds 600 s in CBMC: the reference goes through znx_switch_ring + znx_rotate on a scratch limb; the unbounded Verus unit vec_znx_split stands alone)
+}
+
 // C12 — exact-window harnesses through the public HAL traits (real hal_impl glue + real allocator + real reference op):
 // a scratch of EXACTLY the companion `*_tmp_bytes` suffices (no allocator panic, Kani pointer checks), also for ring
 // degrees whose limb byte size is not a multiple of the 64-byte alignment (N = 2, 4), and the result does not depend on
